@@ -65,9 +65,12 @@ def appendStd (l : List (Nat × Bytes)) (k : Nat) (v : Bytes) : List (Nat × Byt
   | some i => l.set i (k, ((l[i]?).map (·.2)).getD [] ++ joinSep ++ v)
   | none => l ++ [(k, v)]
 
+/-- names outside the table compare in any letter case too (`Name::eq`); the entry keeps the spelling first seen -/
+def sameName (a b : Bytes) : Bool := a.map lower == b.map lower
+
 def appendCustom (l : List (Bytes × Bytes)) (n : Bytes) (v : Bytes) : List (Bytes × Bytes) :=
-  match l.findIdx? (·.1 = n) with
-  | some i => l.set i (n, ((l[i]?).map (·.2)).getD [] ++ joinSep ++ v)
+  match l.findIdx? (sameName ·.1 n) with
+  | some i => l.set i (((l[i]?).map (·.1)).getD n, ((l[i]?).map (·.2)).getD [] ++ joinSep ++ v)
   | none => l ++ [(n, v)]
 
 /-- the bytes of a field name: the set the header loop of `Request::read` checks, REGENERATED from the source (`GenFieldName`);
